@@ -68,8 +68,10 @@ def range_class(lo, hi):
     return "ok"
 
 
-def obs_str(k, v):
-    return "%s=%s" % (hx(k), hx(v))
+def obs_str(k, ts, v):
+    """one observation: key@timestamp=value (the timestamp is compared too: a stale version with an
+    equal value must not pass)"""
+    return "%s@%d=%s" % (hx(k), ts, hx(v))
 
 
 def ref_cursor(items, prog):
@@ -89,7 +91,7 @@ def ref_cursor(items, prog):
         elif st[0] == "L":
             i = n
         elif st[0] == "S":
-            i = sum(1 for k, _ in items if k < st[1])
+            i = sum(1 for it in items if it[0] < st[1])
         elif st[0] == "N":
             i = min(i + 1, n)
         elif st[0] == "P":
@@ -298,6 +300,9 @@ class Run:
         self.n_reads = 0
         self.n_steps = {"write": 0, "flush": 0, "compact": 0, "move": 0, "reopen": 0, "gc": 0, "none": 0}
         # C03
+        self.not_wf_from = None    # event index from which the tree is not well-formed after a known-class event
+        self.pyseq = 0             # the oracle's own sequence counter (timestamps of the reference map)
+        self.spec_ts = {}          # key -> timestamp of its last write
         self.n_scans = self.n_tscans = self.n_scangets = self.n_obs = self.n_seqchecks = 0
         self.mem_tomb = False      # the memtable holds a tombstone
         self.mem_keys = set()
@@ -313,8 +318,16 @@ class Run:
             self.ids[name] = len(self.ids) + 1
         return self.ids[name]
 
-    def problem(self, kind, **kw):
-        d = {"kind": kind, "at_event": len(self.events), "at_op": getattr(self, "cur_op", None)}
+    def problem(self, kind, live=None, **kw):
+        """live: does the problem still count after an event of a known class (K2) in this history?
+        Yes for errors/panics/hangs and for every disagreement between the implementation and the
+        EXTRACTED MODEL (the model adopts the recovered version, so impl = model must keep holding
+        even where both differ from the latest-write specification) - unless the recovered tree was
+        not even well-formed (wf=0: the model's partition points and the real binary searches may
+        then differ, and selector asserts are a stated consequence), see c03.verdict."""
+        if live is None:
+            live = kind == "error"
+        d = {"kind": kind, "at_event": len(self.events), "at_op": getattr(self, "cur_op", None), "live": bool(live)}
         d.update(kw)
         self.problems.append(d)
 
@@ -355,7 +368,7 @@ class Run:
         ids = v.split(" ")[1].split("/")
         mine = [",".join(str(self.fid(n)) for n in lv) for lv in levels]
         if ids != mine:
-            self.problem("corr", what="tree shape differs from model after " + where, impl=mine, model=ids)
+            self.problem("corr", live=True, what="tree shape differs from model after " + where, impl=mine, model=ids)
         return v.split(" ")[2:]
 
     # -- sessions
@@ -372,6 +385,7 @@ class Run:
         if first:
             # seq_no after open = (first write's timestamp) - 1
             self.model.cmd("H %d" % st["seq_no"])
+            self.pyseq = st["seq_no"]
         else:
             old = set(n for lv in self.levels for n in lv)
             new = [n for lv in levels for n in lv if n not in old]
@@ -385,11 +399,12 @@ class Run:
                     self.problem("corr", what="reopen: unexpected new files", new=new)
                 fid, sz = 0, 0
             r = self.model.cmd("R %d %d %d | %s" % (fid, sz, st["seq_no"], self.levels_str(levels)))
+            self.pyseq = st["seq_no"]
             bits = r.split(" ")[1:]
             self.n_steps["reopen"] += 1
             self.events.append(("reopen", r))
             if bits[0] != "1" or bits[1] != "1":
-                self.problem("corr", what="reopen: entries differ from before (sub1 sub2)", bits=bits)
+                self.problem("corr", live=True, what="reopen: entries differ from before (sub1 sub2)", bits=bits)
             elif bits[2] != "1" or bits[3] != "1":
                 self.known_or_problem_reopen(levels, bits)
             self.mem_nonempty = False
@@ -409,6 +424,8 @@ class Run:
                     k2 = True
         if k2:
             self.known_events.append(("K2", "reopen of a tree holding files that overlap in key range and timestamp range: recovered levels wf=%s ordered=%s" % (bits[2], bits[3]), len(self.events)))
+            if bits[2] != "1" and self.not_wf_from is None:
+                self.not_wf_from = len(self.events)
         else:
             self.problem("invalid", what="reopen produced a tree that is not well-formed/ordered and no K2 pair exists", bits=bits)
 
@@ -444,8 +461,10 @@ class Run:
         m = self.model.cmd("W " + ",".join("%s=%s" % (hx(k), "~" if v is None else hx(v)) for k, v in batch))
         if m != "W 1":
             self.problem("corr", what="model rejected batch", op=line)
+        self.pyseq += 1            # one sequence number per batch
         for k, v in batch:
             self.spec[k] = v
+            self.spec_ts[k] = self.pyseq
             self.mem_keys.add(k)
             if v is None:
                 self.mem_tomb = True
@@ -470,7 +489,7 @@ class Run:
             ws = "." if want is None else hx(want)
             ic = "." if io == "~" else io
             if ic != ws:
-                self.problem("read", key=hx(k), impl=io, spec=ws, model=m)
+                self.problem("read", live=(m != ic), key=hx(k), impl=io, spec=ws, model=m)
             elif m != ws:
                 self.problem("corr", what="model read differs from spec and implementation", key=hx(k), impl=io, model=m)
 
@@ -500,12 +519,13 @@ class Run:
         m = self.model.cmd("F %d %d" % (self.fid(new[0]), self.meta[new[0]]["size"]))
         want = ",".join(ent_str(e) for e in f.ents)
         if m[2:] != want:
-            self.problem("corr", what="flush: file contents differ from the model's memtable", impl=want[:300], model=m[2:][:300])
+            self.problem("corr", live=True, what="flush: file contents differ from the model's memtable", impl=want[:300], model=m[2:][:300])
         self.levels = levels
         self.mem_nonempty = False
         self.mem_tomb = False
         self.mem_keys = set()
         self._sinfo = None
+        self.pyseq += 1            # the rollover takes a sequence number
         self.n_steps["flush"] += 1
         self.compare_version(levels, "flush")
 
@@ -551,6 +571,8 @@ class Run:
             self.problem("corr", what="compaction outputs are not the sorted merge of the inputs", inputs=inputs, outs=outs)
         if bits[2] != "1":
             self.problem("invalid", what="levels not well-formed after compaction", c=out)
+            if self.known_events and self.not_wf_from is None:
+                self.not_wf_from = len(self.events)
         elif bits[0] == "1" and bits[6] != "1" and (is_gc and bits[4] == "1" or (not is_gc) and bits[1] == "1"):
             self.problem("corr", what="step not accepted by the model although its parts are", bits=bits)
         self.levels = levels
@@ -598,7 +620,7 @@ class Run:
 
     def spec_items(self, lo, hi):
         """the specification: the keys whose latest write is a put, within the bounds, ascending"""
-        return sorted((k, v) for k, v in self.spec.items() if v is not None and in_bounds(lo, hi, k))
+        return sorted((k, self.spec_ts[k], v) for k, v in self.spec.items() if v is not None and in_bounds(lo, hi, k))
 
     def tree_items(self, lo, hi):
         """the same for the tree alone, from the dumped files of the current levels: per key the
@@ -609,7 +631,7 @@ class Run:
                 for k, ts, v in self.cache[n].ents:
                     if k not in best or ts > best[k][0]:
                         best[k] = (ts, v)
-        return sorted((k, tv[1]) for k, tv in best.items() if tv[1] is not None and in_bounds(lo, hi, k))
+        return sorted((k, tv[0], tv[1]) for k, tv in best.items() if tv[1] is not None and in_bounds(lo, hi, k))
 
     def note_scan(self, what, lo, hi, prog, items):
         si = self.state_info()
@@ -643,7 +665,7 @@ class Run:
         self.events.append((op, out[:400]))
         t = out.split(" ")
         if t[0] != tag or (len(t) > 1 and t[1] == "err"):
-            self.problem("scan", what=what + " did not complete (panic, error or hang)", op=op, out=out[:300])
+            self.problem("scan", live=True, what=what + " did not complete (panic, error or hang)", op=op, out=out[:300])
             if t[0] in ("HANG", "EOF"):
                 self.dead = True
             return None
@@ -665,10 +687,10 @@ class Run:
         self.n_scans += 1
         self.n_obs += len(oracle)
         if impl != oracle:
-            self.problem("scan", what="range scan differs from the live keys in range (direct oracle)", op="scan", lo=bound_str(lo),
+            self.problem("scan", live=(ms != impl), what="range scan differs from the live keys in range (direct oracle)", op="scan", lo=bound_str(lo),
                          hi=bound_str(hi), prog=prog_str(prog), impl=" ".join(impl), oracle=" ".join(oracle), model=" ".join(ms), model_live=" ".join(ml))
         elif ms != impl:
-            self.problem("corr", what="model run_scan differs from the implementation (which agrees with the oracle)", op="scan", lo=bound_str(lo),
+            self.problem("corr", live=True, what="model run_scan differs from the implementation (which agrees with the oracle)", op="scan", lo=bound_str(lo),
                          hi=bound_str(hi), prog=prog_str(prog), impl=" ".join(impl), oracle=" ".join(oracle), model=" ".join(ms))
         if ml != oracle:
             self.problem("corr", what="model run_live (reference cursor over live_spec) differs from the Python oracle", op="scan", lo=bound_str(lo),
@@ -689,10 +711,10 @@ class Run:
         self.n_tscans += 1
         self.n_obs += len(oracle)
         if impl != oracle:
-            self.problem("scan", what="tree range scan differs from the newest live versions in the dumped files", op="tscan", lo=bound_str(lo),
+            self.problem("scan", live=(mt != impl), what="tree range scan differs from the newest live versions in the dumped files", op="tscan", lo=bound_str(lo),
                          hi=bound_str(hi), prog=prog_str(prog), impl=" ".join(impl), oracle=" ".join(oracle), model=" ".join(mt))
         elif mt != impl:
-            self.problem("corr", what="model run_tree_scan differs from the implementation (which agrees with the oracle)", op="tscan", lo=bound_str(lo),
+            self.problem("corr", live=True, what="model run_tree_scan differs from the implementation (which agrees with the oracle)", op="tscan", lo=bound_str(lo),
                          hi=bound_str(hi), prog=prog_str(prog), impl=" ".join(impl), oracle=" ".join(oracle), model=" ".join(mt))
 
     def scanget(self, lo, hi, keys):
@@ -708,29 +730,38 @@ class Run:
         self.n_scangets += 1
         bar = t.index("|") if "|" in t else len(t)
         walk, gets = t[1:bar], t[bar + 1:]
-        want = [obs_str(k, v) for k, v in items]
+        want = [obs_str(*it) for it in items]
         self.n_obs += len(want) + len(keys)
         common = dict(op="scanget", lo=bound_str(lo), hi=bound_str(hi), prog="F,N*")
+        # the model's walk: F, then next until one past the end of the implementation's walk
+        mprog = [("F",)] + [("N",)] * (len(walk) + 1)
+        mw = self.model.cmd("S %s %s %s" % (bound_str(lo), bound_str(hi), prog_str(mprog))).split(" ")[1:]
+        model_walk_ok = (mw[2:] == walk + ["."])
+        mg = self.model.cmd("G " + ",".join(hx(k) for k in keys)).split(" ")[1:]
         if walk != want or t[0] != str(len(want)):
-            self.problem("scan", what="forward walk differs from the live keys in range", impl=" ".join(walk), oracle=" ".join(want), **common)
+            self.problem("scan", live=not model_walk_ok, what="forward walk differs from the live keys in range", impl=" ".join(walk), oracle=" ".join(want), model=" ".join(mw[2:]), **common)
+        elif not model_walk_ok:
+            self.problem("corr", live=True, what="model forward walk differs from the implementation's (which agrees with the oracle)", impl=" ".join(walk), model=" ".join(mw[2:]), **common)
         if len(gets) != len(keys):
-            self.problem("scan", what="point reads missing", out=" ".join(t)[:300], **common)
+            self.problem("scan", live=True, what="point reads missing", out=" ".join(t)[:300], **common)
             return
         seen = {}
         for w in walk:
             if "=" in w:
-                k, v = w.split("=", 1)
-                seen.setdefault(k, []).append(v)
-        for k, g in zip(keys, gets):
+                kt, v = w.split("=", 1)
+                seen.setdefault(kt.split("@")[0], []).append(v)
+        for k, g, m in zip(keys, gets, mg):
             spec = self.spec.get(k)
             ws = "." if spec is None else hx(spec)
             gc = "." if g == "~" else g
             if gc != ws:
-                self.problem("scan", what="point read taken with the scan differs from the last write", key=hx(k), impl=g, spec=ws, **common)
+                self.problem("scan", live=(m != gc), what="point read taken with the scan differs from the last write", key=hx(k), impl=g, spec=ws, model=m, **common)
             expect_in_walk = (gc != "." and not gc.startswith("err") and in_bounds(lo, hi, k))
             got = seen.get(hx(k), [])
             if expect_in_walk != (got == [gc]) or (not expect_in_walk and got):
-                self.problem("scan", what="scan and point read of one key disagree", key=hx(k), point_read=g, in_bounds=in_bounds(lo, hi, k), in_scan=got, **common)
+                # after a K2 reopen a point read can be stale (first hit in a mis-ordered lookup order) while
+                # the scan merges by timestamp: excused only if the extracted model shows the same two answers
+                self.problem("scan", live=(m != gc or not model_walk_ok), model_point_read=m, what="scan and point read of one key disagree", key=hx(k), point_read=g, in_bounds=in_bounds(lo, hi, k), in_scan=got, **common)
 
     def ref_cursor_from(self, items, i, prog):
         """continue the oracle's cursor from position i: observations [at i] + after every call, and the final position"""
@@ -746,7 +777,7 @@ class Run:
             elif st[0] == "L":
                 i = n
             elif st[0] == "S":
-                i = sum(1 for k, _ in items if k < st[1])
+                i = sum(1 for it in items if it[0] < st[1])
             elif st[0] == "N":
                 i = min(i + 1, n)
             elif st[0] == "P":
@@ -755,6 +786,9 @@ class Run:
         return out, i
 
     def flushscan(self, lo, hi, prog1, prog2, gate=False):
+        """gate: False = race with the memtable thread; True/"gate" = parked after the ingest (imm=2:
+        the snapshot holds the flushed entries twice); "pre" = parked before the ingest (imm=3: the
+        snapshot of C03_scan_with_immutable_memtable, for certain)"""
         """a range_scan cursor taken right after the rollover was requested, while the memtable
         thread flushes the immutable memtable: the snapshot holds memtable + immutable memtable + the
         version from before the ingest (Coq: C03_scan_with_immutable_memtable).  prog1 runs while the
@@ -770,13 +804,17 @@ class Run:
         o2, _ = self.ref_cursor_from(items, pos, prog2)
         # the model: one cursor, prog1 ++ prog2, on the store before the flush
         ms = self.model.cmd("S %s %s" % (args, prog_str(prog1 + prog2))).split(" ")[1:]
+        # the model of the snapshot taken after the ingest and before `imm` is cleared (every pair of the
+        # immutable memtable merged twice): outside the theorems, compared all the same
+        md = self.model.cmd("D %s %s" % (args, prog_str(prog1 + prog2))).split(" ")[1:]
         self.note_scan("flushscan", lo, hi, prog1 + prog2, items)
-        op = "flushscan %s %s %s%s" % (args, prog_str(prog1), prog_str(prog2), " gate" if gate else "")
+        gmode = "gate" if gate is True else (gate or "")
+        op = "flushscan %s %s %s%s" % (args, prog_str(prog1), prog_str(prog2), " " + gmode if gmode else "")
         out = self.sess.cmd(op)[0]
         self.events.append((op, out[:400]))
         t = out.split(" ")
         if t[0] != "FLUSHSCAN" or t[1] == "err" or "|" not in t:
-            self.problem("scan", what="scan during a flush did not complete (panic, error or hang)", op=op, out=out[:300])
+            self.problem("scan", live=True, what="scan during a flush did not complete (panic, error or hang)", op=op, out=out[:300])
             if t[0] in ("HANG", "EOF", "PANIC"):
                 self.dead = True
                 return
@@ -788,12 +826,15 @@ class Run:
         self.n_scans += 1
         self.n_obs += len(o1) + len(o2)
         common = dict(op="flushscan", lo=bound_str(lo), hi=bound_str(hi), prog=prog_str(prog1) + " | " + prog_str(prog2), imm=imm)
+        if gmode and imm not in ("imm=2", "imm=3"):
+            self.problem("error", what="the memtable thread did not park at the gate", op=op, out=out[:200])
+        mm = md if imm == "imm=2" else ms
         if i1 != o1 or i2 != o2:
-            self.problem("scan", what="range scan taken during a flush (snapshot with an immutable memtable) differs from the live keys in range",
-                         impl=" ".join(i1 + ["|"] + i2), oracle=" ".join(o1 + ["|"] + o2), model=" ".join(ms), **common)
-        elif ms != i1 + i2[1:]:
-            self.problem("corr", what="model run_scan (before the flush) differs from the scan taken during the flush",
-                         impl=" ".join(i1 + ["|"] + i2), model=" ".join(ms), **common)
+            self.problem("scan", live=(mm != i1 + i2[1:]), what="range scan taken during a flush (snapshot with an immutable memtable) differs from the live keys in range",
+                         impl=" ".join(i1 + ["|"] + i2), oracle=" ".join(o1 + ["|"] + o2), model=" ".join(mm), **common)
+        elif mm != i1 + i2[1:]:
+            self.problem("corr", live=True, what="model (run_scan_dup for imm=2, else run_scan before the flush) differs from the scan taken during the flush",
+                         impl=" ".join(i1 + ["|"] + i2), model=" ".join(mm), **common)
         self.after_flush("FLUSH " + target)
 
     def scanw(self, lo, hi, prog1, writes, prog2):
@@ -813,7 +854,7 @@ class Run:
         self.events.append((op, out[:400]))
         t = out.split(" ")
         if t[0] != "SCANW" or t.count("|") != 2:
-            self.problem("scan", what="scan with interleaved writes did not complete (panic, error or hang)", op=op, out=out[:300])
+            self.problem("scan", live=True, what="scan with interleaved writes did not complete (panic, error or hang)", op=op, out=out[:300])
             self.dead = True
             return
         b1 = t.index("|")
@@ -830,10 +871,10 @@ class Run:
         self.n_obs += len(o1) + len(o2)
         common = dict(op="scanw", lo=bound_str(lo), hi=bound_str(hi), prog=prog_str(prog1) + " | " + prog_str(prog2))
         if i1 != o1 or i2 != o2:
-            self.problem("scan", what="range scan cursor changed by writes made after its creation (or differs from the live keys at creation)",
+            self.problem("scan", live=(ms != i1 + i2[1:]), what="range scan cursor changed by writes made after its creation (or differs from the live keys at creation)",
                          impl=" ".join(i1 + ["|"] + i2), oracle=" ".join(o1 + ["|"] + o2), model=" ".join(ms), writes=op.split(" ")[4], **common)
         elif ms != i1 + i2[1:]:
-            self.problem("corr", what="model run_scan (at creation) differs from the cursor used across writes",
+            self.problem("corr", live=True, what="model run_scan (at creation) differs from the cursor used across writes",
                          impl=" ".join(i1 + ["|"] + i2), model=" ".join(ms), **common)
 
     def seqcheck(self):
@@ -844,8 +885,8 @@ class Run:
             return
         q = self.model.cmd("Q").split(" ")[1]
         self.n_seqchecks += 1
-        if str(st["seq_no"]) != q:
-            self.problem("corr", what="sequence number differs from the model's", impl=st["seq_no"], model=q)
+        if str(st["seq_no"]) != q or st["seq_no"] != self.pyseq:
+            self.problem("corr", live=True, what="sequence number differs from the model's / the oracle's", impl=st["seq_no"], model=q, oracle=self.pyseq)
 
     def finish(self):
         try:
